@@ -10,7 +10,7 @@ def part(rng, fail=False, small=False):
 
 def scenario(rng, sid, focus, big=False):
     mx = 8 if big else 4
-    sc = dict(id=sid, loaders=[], procs=[], runners=[], closers=[], comps=0, initFail=0, seed=rng.randint(0, 2 ** 31), closeOrder=[], cycle=False, hold=0)
+    sc = dict(id=sid, loaders=[], procs=[], runners=[], closers=[], comps=0, initFail=0, seed=rng.randint(0, 2 ** 31), closeOrder=[], cycle=False, hold=0, restart=False)
     if focus in ("C12", "mix"):
         sc["procs"] = [part(rng) for _ in range(rng.randint(0, mx))]
         sc["loaders"] = [part(rng) for _ in range(rng.randint(0, mx))]
@@ -44,6 +44,7 @@ def scenario(rng, sid, focus, big=False):
             sc["comps"] = rng.randint(0, 1)
     # k000 <-> k001: the processors' early-reference callbacks fire (in the contract's sequence) while k001 is populated
     sc["cycle"] = bool(sc["comps"] >= 1 and sc["procs"] and rng.random() < 0.5)
+    sc["restart"] = focus in ("C13", "mix") and rng.random() < 0.3      # the same App started a second time, without components
     for r_ in sc["runners"]:
         r_["zero"] = rng.random() < 0.3      # realised by a field-less runner type (at most one per class; the harness falls back otherwise)
     for i, ld in enumerate(sc["loaders"]):
